@@ -489,7 +489,7 @@ var specBuiltins = map[string]string{
 	"isIntegral": "V_isIntegral", "isFinite": "V_isFinite", "toReal": "V_toReal", "hasPrefix": "V_hasPrefix", "hasSuffix": "V_hasSuffix",
 	"elemsfresh": "V_elemsfresh", "sameslice": "V_sameslice", "realOfInt": "V_realOfInt", "real": "V_real",
 	"rlt": "V_rlt", "rle": "V_rle", "req": "V_req", "isNaN": "V_isNaN", "fresherThan": "V_fresherThan",
-	"concat": "V_concat", "sliceprefix": "V_sliceprefix", "runeCount": "V_runeCount", "first": "V_first", "second": "V_second", "runeAt": "V_runeAt", "strcat": "V_strcat", "fnv32": "V_fnv32", "strOfSeq": "V_strOfSeq", "payloadRef": "V_payloadRef", "cap": "cap",
+	"concat": "V_concat", "sliceprefix": "V_sliceprefix", "runeCount": "V_runeCount", "first": "V_first", "second": "V_second", "runeAt": "V_runeAt", "strcat": "V_strcat", "fnv32": "V_fnv32", "nonNilPayload": "V_nonNilPayload", "strOfSeq": "V_strOfSeq", "payloadRef": "V_payloadRef", "cap": "cap",
 }
 
 func translateSpecExpr(src string) (string, error) {
@@ -730,6 +730,7 @@ func V_sameslice(x, y any) bool { return true }
 func V_sliceprefix(x, y any) bool { return true }
 func V_runeCount(s string) int { return 0 }
 func V_fnv32(s string) int { return 0 }
+func V_nonNilPayload(x any) bool { return true }
 func V_runeAt(s string, i int) rune { return 0 }
 func V_first[A, B any](a A, b B) A { return a }
 func V_second[A, B any](a A, b B) B { return b }
